@@ -1494,6 +1494,9 @@ def exact_frames(op, fr, obs, is_client):
             return 'expected one WINDOW_UPDATE with the increment'
     elif o == 'update_settings':
         if len(fr) != 1 or fr[0]['type'] != wire.SETTINGS or fr[0]['ack'] or [tuple(x) for x in fr[0]['items']] != [tuple(x) for x in op['settings']]:
+            if len(fr) == 1 and fr[0]['type'] == wire.SETTINGS and not fr[0]['ack'] and any(k > 255 for k, v in op['settings']) \
+                    and [tuple(x) for x in fr[0]['items']] == [(k & 0xFF, v) for k, v in op['settings']]:
+                return 'setting identifier above 255 written modulo 256'
             return 'expected one SETTINGS frame with the items'
     elif o == 'close_connection':
         last = op.get('last')
